@@ -2,7 +2,7 @@
    baseline, the plan, the replayed result and (parsed by tools/mysql_sqlparse.py) the MySQL statements THE
    IMPLEMENTATION emitted; everything below is evaluated by vm_compute on those terms.  No proofs here. *)
 From VV.M1 Require Export Corr.
-From VV.MYSQL Require Export Engine Assumptions Known Spec.
+From VV.MYSQL Require Export Engine Assumptions Known Spec SpecKeys.
 
 Inductive impl_result :=
 | IOk (l : list (list stmt))      (* per action, empty strings dropped *)
@@ -123,3 +123,15 @@ Definition outside_stats (cs : list mysql_case) : nat * nat :=
                let '(o, okn) := acc in
                if (judged (mc_base c) (mc_actions c) && negb (in_known_class (mc_base c) (mc_actions c)))%bool
                then (S o, if Nat.eqb (v_code (oracle c)) 0 then S okn else okn) else (o, okn)) cs (0, 0)%nat.
+
+(* actions of judged migrations, and how many fall under a proved simulation lemma (sim_proved_for) *)
+Fixpoint sim_stats_plan (s : schema) (acts : list action) : nat * nat :=
+  match acts with
+  | [] => (0, 0)%nat
+  | a :: r => let '(n, k) := sim_stats_plan (step s a) r in (S n, if sim_proved_for s a then S k else k)
+  end.
+Definition sim_stats (cs : list mysql_case) : nat * nat :=
+  fold_left (fun acc c => let '(n, k) := acc in
+                          if judged (mc_base c) (mc_actions c)
+                          then let '(n', k') := sim_stats_plan (mc_base c) (mc_actions c) in (n + n', k + k')%nat
+                          else (n, k)) cs (0, 0)%nat.
